@@ -186,6 +186,16 @@ def op_table():
             raise AssertionError("written values differ")
     add("writefile", lambda m: m.nrows >= 1, f_write)
 
+    def f_add_strided(cf, m, w):
+        # a column that is a strided view of a 2-D array (as updateGeometry adds its nine columns)
+        block = np.array([fresh(m.nrows, 12), fresh(m.nrows, 13)]).T.copy()
+        cf.addcolumn(block[:, 0], "c"); m.cols["c"] = block[:, 0].tolist()
+    add("addcolumn_new_strided_view", hasnot("c"), f_add_strided)
+
+    def f_item_c(cf, m, w):
+        v = fresh(m.nrows, 14); cf["c"] = v; m.cols["c"] = v.tolist()
+    add("setitem_array_on_c", has("c"), f_item_c)
+
     def f_filter_none(cf, m, w):
         cf.filter(np.ones(m.nrows, bool))
     add("filter_that_removes_nothing", lambda m: m.nrows >= 1, f_filter_none)
